@@ -221,3 +221,10 @@ package ast
 //@ guarded_by Vars.om Vars.mutex except (*Vars).All (*Vars).Keys (*Vars).Values (*Vars).Merge                       [C18]
 //@ guarded_by Tasks.om Tasks.mutex except (*Tasks).All (*Tasks).Keys (*Tasks).Values                                [C18]
 //@ guarded_by Includes.om Includes.mutex except (*Includes).All (*Includes).Keys (*Includes).Values                 [C18]
+
+// ---- C09: the merge order of the include graph is a function of the graph, not of Go map iteration ---------
+// graph.TopologicalSort iterates a Go map, so sibling includes would be merged in a different order on every
+// load; StableTopologicalSort(g, less) is a function of the graph and of less (assumed contract).
+//@ func (*TaskfileGraph).Merge
+//@   nosite graph.TopologicalSort                                                                              [C09]
+//@   site graph.StableTopologicalSort#1 requires arg0 == tfg.Graph                                             [C09]
